@@ -49,13 +49,22 @@ static void c16_globals_restore(void) { c16_inc_serial++; sim_globals_restore();
 
 /* ---- the keys intr= and adv= ---- */
 static struct { int at, sig, pm; } c16_in[12]; static int c16_nin, c16_adv, c16_slow;
+/* fds=<k> (session 4, Nq.SelFds): the daemon runs with its spawner pipes on other descriptor numbers (chanfdout[]/chanfdin[] are set accordingly
+ * and the descriptors moved before the daemon's first system call; descriptors it opens later - sendmutex, the trigger FIFO, todo files - take the
+ * lowest free numbers, so with k=1 the trigger is BELOW the pipes and a command pipe is the highest descriptor).  out0,out1,in0,in1:
+ * die=<sel>:<c>: at the <sel>-th select of an incarnation the spawner of channel c closes its report pipe (EOF: spawndied(), flagspawnalive[c] = 0,
+ * exit requested) - the snapshots that follow have a dead spawner, whose descriptors must no longer be set */
+static const int c16_fdtab[4][4] = { { 1, 3, 2, 4 }, { 12, 10, 9, 11 }, { 4, 2, 3, 1 }, { 1, 14, 2, 13 } };
+static int c16_fds, c16_fds_done = -1, c16_die_at, c16_die_c;
 static int c16_sel, c16_seen_inc;
 static void c16_parse_keys(void) {
-  c16_nin = 0; c16_adv = 0; c16_slow = 0;
+  c16_nin = 0; c16_adv = 0; c16_slow = 0; c16_fds = 0; c16_die_at = 0; c16_die_c = 0;
   char tmp[1600]; snprintf(tmp, sizeof tmp, "%s", S.text); char *save = 0;
   for (char *t = strtok_r(tmp, " ", &save); t; t = strtok_r(0, " ", &save)) {
     if (!strncmp(t, "adv=", 4)) c16_adv = atoi(t + 4);
     else if (!strncmp(t, "slow=", 5)) c16_slow = atoi(t + 5);
+    else if (!strncmp(t, "fds=", 4)) c16_fds = atoi(t + 4) & 3;
+    else if (!strncmp(t, "die=", 4)) { if (sscanf(t + 4, "%d:%d", &c16_die_at, &c16_die_c) != 2) c16_die_at = 0; c16_die_c &= 1; }
     else if (!strncmp(t, "intr=", 5)) { char *s2 = 0;
       for (char *u = strtok_r(t + 5, ",", &s2); u && c16_nin < 12; u = strtok_r(0, ",", &s2)) { char c; int at, pm = 0;
         if (sscanf(u, "%d:%c:%d", &at, &c, &pm) >= 2) { c16_in[c16_nin].at = at; c16_in[c16_nin].sig = c; c16_in[c16_nin].pm = pm < 0 ? 0 : pm > 1000 ? 1000 : pm; c16_nin++; } } }
@@ -63,7 +72,19 @@ static void c16_parse_keys(void) {
 }
 
 /* slow=<n>: every answer of qmail-clean takes n seconds (virtual time passes INSIDE the do-phase of qmail-send's loop) */
-static void c16_gate(simproc *p, const char *what) { if (c16_slow > 0 && p->idx == 1 && !strcmp(what, "write")) W.clock += c16_slow; }
+extern int chanfdout[2], chanfdin[2];
+static void c16_renumber(simproc *p) {
+  const int *t = c16_fdtab[c16_fds];
+  if (c16_fds) {
+    simfd old[5]; for (int fd = 1; fd <= 4; fd++) { old[fd] = p->fd[fd]; memset(&p->fd[fd], 0, sizeof p->fd[fd]); p->fd[fd].kind = SFD_FREE; }
+    p->fd[t[0]] = old[1]; p->fd[t[1]] = old[3]; p->fd[t[2]] = old[2]; p->fd[t[3]] = old[4];
+  }
+  chanfdout[0] = t[0]; chanfdout[1] = t[1]; chanfdin[0] = t[2]; chanfdin[1] = t[3];
+}
+static void c16_gate(simproc *p, const char *what) {
+  if (p->idx == 0 && c16_fds_done != c16_inc_serial) { c16_fds_done = c16_inc_serial; c16_renumber(p); }   /* before the daemon's first system call */
+  if (c16_slow > 0 && p->idx == 1 && !strcmp(what, "write")) W.clock += c16_slow;
+}
 
 /* what the base run of a sweep looked like (first incarnation): per select, was the daemon about to sleep, and was anything queued */
 static unsigned char c16_idle[MAXSEL], c16_queued[MAXSEL]; static int c16_nsel1;
@@ -77,6 +98,7 @@ static int c16_select(simproc *p, int nfds, fd_set *r, fd_set *w, struct timeval
     c16_nsel1 = c16_sel; c16_idle[c16_sel] = tv && tv->tv_sec > 0;
     c16_queued[c16_sel] = (pqchan[0].p && pqchan[0].len) || (pqchan[1].p && pqchan[1].len) || (pqdone.p && pqdone.len) || (pqfail.p && pqfail.len);
   }
+  if (c16_die_at && c16_die_at == c16_sel) { xlog("X spawner-dies select=%d channel=%d\n", c16_sel, c16_die_c); W.src[srcid[c16_die_c]].closed = 1; }
   int fired = 0;
   for (int i = 0; i < c16_nin; i++) if (c16_in[i].at == c16_sel) {
     int sg = c16_in[i].sig == 'T' ? SIGTERM : c16_in[i].sig == 'A' ? SIGALRM : SIGHUP;
@@ -114,6 +136,8 @@ static void gen_deferred(char *o, size_t osz, int signals) {
   n += snprintf(o + n, osz - n, " out=%s ord=%d cl=%d cr=%d sl=%d sr=%d", outscript(out, 16, "ZZZZZZKKD"), (int)h_below(3), 1 + (int)h_below(4), 1 + (int)h_below(4), 1 + (int)h_below(5), 1 + (int)h_below(5));
   n += snprintf(o + n, osz - n, " adv=%d", (int[]){0, 0, 1, 2, 7, 40}[h_below(6)]);
   if (h_below(4) == 0) n += snprintf(o + n, osz - n, " slow=%d", (int[]){1, 3, 10, 60}[h_below(4)]);
+  if (h_below(2) == 0) n += snprintf(o + n, osz - n, " fds=%d", 1 + (int)h_below(3));
+  if (signals && h_below(4) == 0) n += snprintf(o + n, osz - n, " die=%d:%d", at + 2 + (int)h_below(120), (int)h_below(2));
   if (h_below(6) == 0) n += snprintf(o + n, osz - n, " life=%d", (int[]){2000, 7200, 100000}[h_below(3)]);
   if (h_below(8) == 0) n += snprintf(o + n, osz - n, " bf=%s", (const char *[]){"1", "10", "01"}[h_below(3)]);
   int hor = at + 150 + (int)h_below(300);
@@ -157,8 +181,8 @@ static void sweep_restart(char *line, size_t osz) {
   n += snprintf(head + n, sizeof head - n, "m=s@src.example:");
   for (int j = 0; j < nr; j++) n += snprintf(head + n, sizeof head - n, "%s%s", j ? "," : "", (loc ? c16_loc : c16_rem)[j % 3]);
   if (t0) n += snprintf(head + n, sizeof head - n, "@%d", t0);
-  snprintf(tail, sizeof tail, " out=%s ord=%d cl=%d cr=%d sl=%d sr=%d hold=%d adv=%d", outscript(out, 6, "KKZZD"), (int)h_below(3), 1 + (int)h_below(4), 1 + (int)h_below(4),
-           1 + (int)h_below(5), 1 + (int)h_below(5), (int[]){0, 2, 99}[h_below(3)], (int[]){0, 0, 1}[h_below(3)]);
+  snprintf(tail, sizeof tail, " out=%s ord=%d cl=%d cr=%d sl=%d sr=%d hold=%d adv=%d fds=%d", outscript(out, 6, "KKZZD"), (int)h_below(3), 1 + (int)h_below(4), 1 + (int)h_below(4),
+           1 + (int)h_below(5), 1 + (int)h_below(5), (int[]){0, 2, 99}[h_below(3)], (int[]){0, 0, 1}[h_below(3)], (int)h_below(4));
   for (int k = first + 1; k <= first + 8; k++) for (int d = 0; d < 3; d++) {
     snprintf(line, osz, "%s;x@h.example:%s@%d%s term=%d hor=%d", head, (h_below(2) ? c16_loc : c16_rem)[h_below(3)], k + d, tail, k, k + 260);
     run_line(line);
